@@ -287,9 +287,9 @@ PROPS["C13"] = {
 PROPS["C11"] = {
     "engine_name": "E2-mir-smt",
     "technique": "SMT (z3) over MIR: expiry arithmetic, guard entailment at the lazy-expiry removal site, trace obligations of the TTL-update closure; Kani round-trip of the on-disk expiry field",
-    "level_text": "z3-decided for all u64 inputs: the absolute expiry handed to the insert path is 0 iff no TTL, else min(u64::MAX, ts + ttl*10^9) (both steps saturating), with the resolved (timestamp, explicit) pair passed through; retire_expired_if_current removes an entry only under its guard when it is pointer-identical to the generation the caller saw and 0 < expiry < now, un-counting exactly size(current); a successful TTL update republishes the ordered-index slot with the new generation (so range queries judge expiry by the new generation). CBMC-decided: the expiry field round-trips bit-exactly through serialize/parse.",
+    "level_text": "z3-decided for all u64 inputs: the absolute expiry handed to the insert path is 0 iff no TTL, else min(u64::MAX, ts + ttl*10^9) (both steps saturating), with the resolved (timestamp, explicit) pair passed through; retire_expired_if_current removes an entry only under its guard when it is pointer-identical to the generation the caller saw and 0 < expiry < now, un-counting exactly size(current); a successful TTL update republishes the ordered-index slot with the new generation (so range queries judge expiry by the new generation). CBMC-decided: the expiry field round-trips bit-exactly through serialize/parse. resolve_record_value (the one function every value-reading call goes through): with TTL on, 0 < expiry < now yields KeyNotFound before memory, cache or disk is consulted; a generation without expiry or unexpired (or TTL off) is never refused on expiry grounds.",
     "level_note": E2NOTE + ". Wall-clock reads, sweeper/renewal races as executions, recovery's expired-winner handling (scan loop) and deferred-value rewrites on disk are not decided.",
-    "functions": [OPS + "::insert_bytes_with_timestamp_and_ttl_internal", INTERNAL + "::retire_expired_if_current", TTL + "::update_ttl", FMT + "::parse_record"],
+    "functions": ["src/core/store/operations.rs::resolve_record_value", OPS + "::insert_bytes_with_timestamp_and_ttl_internal", INTERNAL + "::retire_expired_if_current", TTL + "::update_ttl", FMT + "::parse_record"],
     "smt": "c11",
     "kani": [H(FMT, "c10_roundtrip_v2", "expiry (and all header fields) survive serialize -> parse bit-exactly", "3-byte key, all u64 expiries")],
     "bounds": "all u64 values; every MIR path, loops unrolled twice",
@@ -327,9 +327,9 @@ PROPS["C08"]["functions"] += [PERSIST + "::load_value_from_disk", WB + "::prepar
 PROPS["C07"] = {
     "engine_name": "E2-mir-smt + E1-kani",
     "technique": "SMT (z3) path-condition entailment over the MIR of the guarded replace/delete steps; Kani for the retirement-timestamp chain",
-    "level_text": "Reduced claim – the guarded-step obligations the property rests on, given that an scc entry guard serialises all mutations of one key (trusted): on EVERY MIR path of replace_record_if_current (the commit step of compare-and-swap / atomic increment), update_record_with_ttl and delete_with_timestamp that mutates the entry, z3 shows the path condition entails (a) the mutation happens under the Occupied entry guard, (b) ts_new > current.timestamp, (c) for CAS/increment: the entry still IS (pointer identity) the generation whose value was read – so no update is lost and exactly one of several racing CAS on the same expected generation can win, (d) the successor is linked on the current entry; Err paths before the mutation have no effect. Kani: retirement_timestamp() = max(retired_at) over the successor chain (<= 2 successors), which is what lets a writer that raced with a delete be refused.",
+    "level_text": "Reduced claim – the guarded-step obligations the property rests on, given that an scc entry guard serialises all mutations of one key (trusted): on EVERY MIR path of replace_record_if_current (the commit step of compare-and-swap / atomic increment), update_record_with_ttl and delete_with_timestamp that mutates the entry, z3 shows the path condition entails (a) the mutation happens under the Occupied entry guard, (b) ts_new > current.timestamp, (c) for CAS/increment: the entry still IS (pointer identity) the generation whose value was read – so no update is lost and exactly one of several racing CAS on the same expected generation can win, (d) the successor is linked on the current entry; Err paths before the mutation have no effect. Kani: retirement_timestamp() = max(retired_at) over the successor chain (<= 2 successors), which is what lets a writer that raced with a delete be refused. Also: compare_and_swap attempts its replacement only after the value resolved for the key compared equal to `expected`, conditional on exactly the generation that value was resolved from; json_patch (one arbitrary retry iteration) patches the value resolved in that iteration, validates the result, replaces conditionally on that generation, and returns Ok only when the replacement succeeded.",
     "level_note": E2NOTE + ". Histories, real-time order, the retry loops around the guarded step, JSON patch and insert-if-absent sites are NOT decided; this is a necessary-condition check, not a linearizability result.",
-    "functions": ["src/core/store/atomic.rs::replace_record_if_current", INTERNAL + "::update_record_with_ttl", OPS + "::delete_with_timestamp", RECORD + "::retirement_timestamp"],
+    "functions": ["src/core/store/atomic.rs::compare_and_swap_with_timestamp_and_ttl", "src/core/store/json_patch.rs::json_patch_with_timestamp", "src/core/store/atomic.rs::replace_record_if_current", INTERNAL + "::update_record_with_ttl", OPS + "::delete_with_timestamp", RECORD + "::retirement_timestamp"],
     "smt": "c07",
     "kani": [H(RECORD, "c07_retirement_timestamp_is_chain_max", "retirement_timestamp = max over the record and its successor chain", "<= 2 successors, all u64")],
     "bounds": "every MIR path, loops unrolled twice; successor chains <= 2",
@@ -347,9 +347,9 @@ PROPS["C02"]["functions"] += [WB + "::flush_pending_deletions"]
 PROPS["C01"] = {
     "engine_name": "E2-mir-smt",
     "technique": "SMT (z3) path-condition entailment and trace obligations over the MIR of the hash-table mutation steps (per-call step semantics only)",
-    "level_text": "Reduced claim – the per-call step semantics on which the last-writer-wins equivalence rests, not the equivalence over call sequences: on EVERY MIR path of update_record_with_ttl(_bytes), replace_record_if_current and delete_with_timestamp z3 shows (i) the entry is changed only with ts_new > CURRENT.timestamp under the entry guard (a write/delete takes effect only if its timestamp is greater), (ii) validate -> reserve -> publish: every modification of shared state (refcount/retired_at stores, successor link, index, clock, counters) happens after the last fallible step, and a path that returns Err before publication has no effect at all (a failing call leaves the logical contents unchanged), (iii) the publication is complete (hash table, ordered index, clock observation, accounting). resolve_timestamp treats exactly Some(non-zero) as explicit. The new-key paths of insert_with_timestamp_and_ttl_internal, insert_bytes_with_expiry and insert_if_absent are analysed as one arbitrary iteration of their retry loop: the whole record size is reserved before the entry is created in the Vacant arm, then index, clock, commit and record_count+1; nothing on paths that create nothing.",
+    "level_text": "Reduced claim – the per-call step semantics on which the last-writer-wins equivalence rests, not the equivalence over call sequences: on EVERY MIR path of update_record_with_ttl(_bytes), replace_record_if_current and delete_with_timestamp z3 shows (i) the entry is changed only with ts_new > CURRENT.timestamp under the entry guard (a write/delete takes effect only if its timestamp is greater), (ii) validate -> reserve -> publish: every modification of shared state (refcount/retired_at stores, successor link, index, clock, counters) happens after the last fallible step, and a path that returns Err before publication has no effect at all (a failing call leaves the logical contents unchanged), (iii) the publication is complete (hash table, ordered index, clock observation, accounting). resolve_timestamp treats exactly Some(non-zero) as explicit. The new-key paths of insert_with_timestamp_and_ttl_internal, insert_bytes_with_expiry and insert_if_absent are analysed as one arbitrary iteration of their retry loop: the whole record size is reserved before the entry is created in the Vacant arm, then index, clock, commit and record_count+1; nothing on paths that create nothing. Also compare_and_swap and json_patch: conditional on the generation whose value was compared / patched; refused calls publish nothing.",
     "level_note": E2NOTE + ". NOT decided: call sequences, reads (tier fall-through memory/cache/disk), flush/reopen placement, JSON patch, range queries, configuration matrix – i.e. the equivalence itself. Claimed because these step obligations are the property's first and third anchored mechanisms and catch realistic slips in them; everything sequence- or tier-dependent is outside.",
-    "functions": [INTERNAL + "::update_record_with_ttl", INTERNAL + "::update_record_with_ttl_bytes", "src/core/store/atomic.rs::replace_record_if_current", OPS + "::delete_with_timestamp", OPS + "::resolve_timestamp"],
+    "functions": ["src/core/store/atomic.rs::compare_and_swap_with_timestamp_and_ttl", "src/core/store/json_patch.rs::json_patch_with_timestamp", INTERNAL + "::update_record_with_ttl", INTERNAL + "::update_record_with_ttl_bytes", "src/core/store/atomic.rs::replace_record_if_current", OPS + "::delete_with_timestamp", OPS + "::resolve_timestamp"],
     "smt": "c01",
     "bounds": "every MIR path, loops unrolled twice",
     "stubs": [],
@@ -426,7 +426,7 @@ PROPS["C11"]["functions"] += ["src/core/ttl_sweep.rs::sample_and_expire_batch", 
 PROPS["C04"] = {
     "engine_name": "E2-mir-smt",
     "technique": "SMT (z3) path-condition entailment and trace obligations over the MIR of the recovery scan (one arbitrary loop iteration + prologue/epilogue), of journal replay and of the journaled retirement path",
-    "level_text": "Reduced claim – the step obligations behind 're-runnable repairs that only touch dead blocks', not idempotence over crash images: (i) replay_allocation_journal writes the markers first and clears the journal last, only after the markers are durable, so a crash during replay leaves the journal active (re-runnable); (ii) the scan replays the journal before the first block is read and never for a read-only open; (iii) ONE ARBITRARY iteration of the scan loop: an extent is queued for retirement only if it is (a) the scanned record's own extent when an already indexed generation of its key is NEWER, (b) the REPLACED generation's extent (same sector and length as what is released) when the scanned record wins, or (c) an incomplete retirement-marker extent starting at the scanned sector; indexing a new key queues nothing; a verified record is never discarded unless a newer generation is indexed; (iv) after the loop the queued extents go only through the journaled DiskIO::retire_extents (ACTIVE journal -> markers -> CLEAR, each step after the previous returned Ok), never raw writes, never for a read-only open, and the scan reports success only if they were made durable.",
+    "level_text": "Reduced claim – the step obligations behind 're-runnable repairs that only touch dead blocks', not idempotence over crash images: (i) replay_allocation_journal writes the markers first and clears the journal last, only after the markers are durable, so a crash during replay leaves the journal active (re-runnable); (ii) the scan replays the journal before the first block is read and never for a read-only open; (iii) ONE ARBITRARY iteration of the scan loop: an extent is queued for retirement only if it is (a) the scanned record's own extent when an already indexed generation of its key is NEWER, (b) the REPLACED generation's extent (same sector and length as what is released) when the scanned record wins, or (c) an incomplete retirement-marker extent starting at the scanned sector; indexing a new key queues nothing; a verified record is never discarded unless a newer generation is indexed; (iv) after the loop the queued extents go only through the journaled DiskIO::retire_extents (ACTIVE journal -> markers -> CLEAR, each step after the previous returned Ok), never raw writes, never for a read-only open, and the scan reports success only if they were made durable. Extent lengths: the extent released, un-counted and queued for retirement for a replaced generation (scan) and for an expired winner equals ceil(total_size(key.len(), value_len) / 4096) of that generation – a whole extent and nothing beyond it; a read-only open sorts the decoded journal by start sector before the single forward masking pass.",
     "level_note": E2NOTE + ". Equality of contents across repeated recoveries of a crash image, nested crashes inside recovery, and expiry between opens are NOT decided (no engine here can run a whole scan over a device image).",
     "functions": [REC + "::scan_and_rebuild_indexes", IO + "::replay_allocation_journal", IO + "::retire_extents"],
     "smt": "c04",
@@ -439,7 +439,7 @@ PROPS["C04"] = {
 PROPS["C14"] = {
     "engine_name": "E2-mir-smt",
     "technique": "SMT (z3) path-condition entailment and trace obligations over the MIR of one arbitrary iteration of range_query's scan loop",
-    "level_text": "Reduced claim – the loop's own logic, with the skiplist's ordered iteration trusted: in ONE ARBITRARY iteration a pair is appended only while results.len() < limit and only when the entry's key is <= end_key (both checked in that iteration); the pair is (this entry's key, the value resolved for the record loaded from this entry's slot under the epoch guard); the record reference is never used after the guard is repinned; a continuing iteration advances the cursor exactly once; the scan starts at lower_bound(Included(start_key)). With ascending iteration this gives: within the inclusive bounds, at most limit, the smallest such keys, each with its own value. TTL updates republish the ordered-index slot (so scans see the current generation).",
+    "level_text": "Reduced claim – the loop's own logic, with the skiplist's ordered iteration trusted: in ONE ARBITRARY iteration a pair is appended only while results.len() < limit and only when the entry's key is <= end_key (both checked in that iteration); the pair is (this entry's key, the value resolved for the record loaded from this entry's slot under the epoch guard); the record reference is never used after the guard is repinned; a continuing iteration advances the cursor exactly once; the scan starts at lower_bound(Included(start_key)). With ascending iteration this gives: within the inclusive bounds, at most limit, the smallest such keys, each with its own value. TTL updates republish the ordered-index slot (so scans see the current generation). The scan stops at an entry only through the limit / upper-bound test of that iteration: skipped entries (expired, stale) neither end the scan nor count against the limit.",
     "level_note": E2NOTE + ". NOT decided: ordered iteration of crossbeam-skiplist under concurrent mutation, absence/duplication of keys under writers, agreement of the two indexes at quiescence, expiry filtering inside resolve_value_ref.",
     "functions": ["src/core/store/range.rs::range_query", TTL + "::update_ttl"],
     "smt": "c14",
@@ -447,6 +447,20 @@ PROPS["C14"] = {
     "stubs": [],
     "assumptions": ["crossbeam-skiplist iterates keys in ascending byte order and lower_bound is correct"],
     "outside": "concurrency, index agreement, skiplist internals",
+}
+
+PROPS["C15"] = {
+    "engine_name": "E2-mir-smt",
+    "technique": "SMT (z3) path-condition entailment and trace obligations over the MIR of migrate(), copy_records, verify_records, DestinationGuard::publish and one arbitrary iteration of the read-only recovery scan; candidates confirmed by a native migration witness",
+    "level_text": "Reduced claim – the migration's own control and data flow, with the two store instances' insert/flush/recovery taken from the other properties (C02, C03, C04, C08): (i) over every MIR path of migrate(), DestinationGuard::publish is reached only after copy_records, destination.flush, a read-only reopen + verify_records and a re-read of the source's identity stamp, each with an Ok result, and Ok is returned only after publish returned Ok; (ii) in ONE ARBITRARY iteration of copy_records the destination receives this record's key, the value resolved for this record from the SOURCE, its timestamp and its absolute expiry bit-exact, and a refused insert aborts; (iii) in ONE ARBITRARY iteration of verify_records a pair is accepted only when key, timestamp, absolute expiry and resolved value compared equal, and batches of unequal length never reach the pair loop; (iv) publish links with fs::hard_link (never rename/copy), checks the temporary file's stamp first and rolls back on every later error; (v) in ONE ARBITRARY iteration of the recovery scan plus its epilogue, read_only implies no retirement push and no device-writing call, an all-zero legacy marker is skipped only under allow_ambiguous_legacy_recovery, and expiry is not consulted; (vi) both migration stores are configured with enable_ttl = false, no cache, no memory cap, and the source is opened in OpenMode::ReadOnly.",
+    "level_note": E2NOTE + ". NOT decided: file-system semantics (hard_link atomicity, stamps as identity), that the destination store's insert/flush/recovery are correct (claimed under other properties), DestinationGuard::create / Drop cleanup of the temporary file (exercised only by the native witness), the feox-migrate CLI.",
+    "functions": ["src/core/store/migration.rs::migrate", "src/core/store/migration.rs::copy_records", "src/core/store/migration.rs::verify_records",
+                  "src/core/store/migration.rs::DestinationGuard::publish", "src/core/store/migration.rs::migration_config", REC + "::scan_and_rebuild_indexes"],
+    "smt": "c15",
+    "bounds": "every MIR path of migrate and publish (loops unrolled once); one arbitrary iteration of the copy, verify and scan loops (state havocked at the loop header)",
+    "stubs": [],
+    "assumptions": ["calls into the store (insert_migrated_bytes, resolve_value_ref, flush, build_read_only) are havocked: arbitrary results", "fs::hard_link fails if the destination name exists (documented)"],
+    "outside": "file-system behaviour, whole-image equivalence (covered only by the native witness's synthesised v1/v2 images), CLI",
 }
 
 PROPS["C18"] = {
